@@ -309,7 +309,12 @@ def run(ctx, rep):
     fs = ctx.func(TCP + "._send")
     pops = [c for c in A.calls(fs.node) if isinstance(c.func, ast.Attribute) and c.func.attr == "pop"
             and K.self_attr(c.func.value, cont)]
-    oks = bool(pops) and ("closing(" in A.src(fs.node) or ".close()" in A.src(fs.node))
+    # the popped socket is closed: closing(sock), sock.close(), or the socket used as its own context manager (`with sock:`)
+    popped = {st_.targets[0].id for st_ in A.walk(fs.node) if isinstance(st_, ast.Assign) and isinstance(st_.targets[0], ast.Name)
+              and any(c_ in pops for c_ in A.calls(st_.value))}
+    own_cm = any(isinstance(w_, ast.With) and any(isinstance(it_.context_expr, ast.Name) and it_.context_expr.id in popped
+                                                   for it_ in w_.items) for w_ in A.walk(fs.node))
+    oks = bool(pops) and ("closing(" in A.src(fs.node) or ".close()" in A.src(fs.node) or own_cm)
     rep.ob("R18.3", "TCPRegistryServer._send: replying pops and closes the client's socket", oks,
            "self.%s.pop(addrinfo) ... closed" % cont if oks else "_send leaves the client's socket open or stored", fs.loc)
     # A: _recv drains leftovers before accepting / storing;  B: every loop path of _work after _recv replies or drops
@@ -400,6 +405,9 @@ def run(ctx, rep):
                     key = x.left
                 elif isinstance(x, ast.Call) and (A.call_name(x) or "") in ("self." + h for h in helpers) and x.args:
                     key = x.args[0]
+                elif isinstance(x, ast.Call) and isinstance(x.func, ast.Attribute) and x.func.attr in ("get", "pop", "setdefault") and \
+                        K.self_attr(x.func.value, "services") and x.args:
+                    key = x.args[0]        # self.services.get(name) is a lookup like self.services[name]
                 if key is not None:
                     n4 += 1
                     ok = normalised(n, key)
@@ -407,7 +415,7 @@ def run(ctx, rep):
                            "the key derives from .upper() or from the table's own keys" if ok else
                            "the services table is accessed with `%s`, which is not upper-cased: registrations and queries that "
                            "differ only in case no longer meet" % A.src(key), ctx.loc(x))
-    rep.floor("R18.4", "table accesses / helper calls in the cmd_* methods", n4, 5)
+    rep.floor("R18.4", "table accesses / helper calls in the cmd_* methods", n4, 4)
 
     # loops whose body removes entries must iterate over a copy
     for mname, m in sorted(rs.methods.items()):
